@@ -173,8 +173,11 @@ func c07Body(w *W) {
 	slots, flushAt, chanCap := 0, 0, 0
 	vsched.Run(zeroChooser{}, vsched.Options{}, func() { slots, flushAt, chanCap = simdjson.VerifGeometry() })
 	w.Note(fmt.Sprintf("live geometry: %d ring slots, flush threshold %d, channel capacity %d", slots, flushAt, chanCap))
+	w.Note("layer B: models/RingPipeline.tla (producer, consumer, FIFO channel of capacity C, ring of S slots, N buffers, optional consumer failure) is checked by TLC for the live S and C and the buffer count of four documents; the complete labelled state graph (-dump dot,actionlabels) is read back and every transition is replayed on the implementation by steering the controlled scheduler along a shortest model path to it: at every step the enabled threads of the implementation must equal the processes the model enables, and the outcome must equal the default schedule's")
 	w.Note(fmt.Sprintf("layer A: stateless exploration of the real (source-instrumented) code: every interleaving of stage-1 producer and stage-2 consumer with <= %d preemptions (unpruned), and every interleaving outright with exact state-key pruning, per document", bounds))
 
+	buffersOf := map[string]int{}
+	canonOf := map[string]c07Outcome{}
 	for di, doc := range docs {
 		x := &c07Exec{doc: doc}
 		// canonical schedule (0 preemptions), checked against the independent model
@@ -186,6 +189,9 @@ func c07Body(w *W) {
 				buffers++
 			}
 		}
+		// sends seen: 2 of the small seed parse (its buffer + terminator), N data buffers, 1 terminator
+		buffersOf[doc.name] = buffers - 3
+		canonOf[doc.name] = canon
 		var verdict ref.Verdict
 		var want []*ref.Node
 		if doc.nd {
@@ -218,8 +224,8 @@ func c07Body(w *W) {
 				enc, _ := json.Marshal(c07Case{Doc: doc.name})
 				w.Violate(Violation{Harness: "C07-canonical", Fingerprint: "C07/canonical/" + doc.name, What: bad, Case: enc, CaseText: doc.name + " default schedule", Config: "pb=0"})
 			}
-			w.Note(fmt.Sprintf("%s: %d bytes, %d index buffers sent, model verdict %v, canonical outcome %s", doc.name, len(doc.text), buffers-1, verdict, canon))
-			w.Max("max_buffers", int64(buffers-1))
+			w.Note(fmt.Sprintf("%s: %d bytes, %d index buffers sent, model verdict %v, canonical outcome %s", doc.name, len(doc.text), buffers-3, verdict, canon))
+			w.Max("max_buffers", int64(buffers-3))
 		}
 		outcomes := map[c07Outcome]int{}
 		check := func(kind string) func(choices []int, trace []vexp.Point) {
@@ -292,6 +298,8 @@ func c07Body(w *W) {
 			w.Count("documents_with_more_than_one_outcome", 1)
 		}
 	}
+	// layer B: TLA+ protocol model checked by TLC, every transition replayed on the code
+	c07LayerB(w, docs, slots, chanCap, buffersOf, canonOf)
 	w.Sample("schedule sample: D4-stage2-error-first-buffer with the consumer preempted right after its first receive and the producer run to completion")
 }
 
